@@ -154,12 +154,12 @@ Definition symbol_children (t : ts) (sym_st : gstyle) (kids : list tnode) : list
 (* orig_ts = the use's resolved transform attribute, new_ts = translate(x, y) . viewBox transform,
    clip = the clip path made from get_clip_rect's rectangle (when it gives one), st / sym_st = the group-forming style of
    the use / of the symbol.  With a clip: clip group (id, orig_ts) > forced use group (no id, identity) > children(new_ts);
-   without: use group (id, transform reset to identity) > children(orig_ts . new_ts). *)
+   without (since 214a8de): use group (id, orig_ts, kept from convert_group) > children(new_ts). *)
 Definition convert_use_symbol (id : N) (orig_ts new_ts : ts) (st sym_st : gstyle) (clip : option N) (kids : list tnode)
   : list tnode :=
   match clip with
   | Some c => [TGroup id orig_ts (clip_only c) [TGroup 0%N ts_identity st (symbol_children new_ts sym_st kids)]]
-  | None => [TGroup id ts_identity st (symbol_children (ts_concat orig_ts new_ts) sym_st kids)]
+  | None => [TGroup id orig_ts st (symbol_children new_ts sym_st kids)]
   end.
 (* the expansion: a group with the use's transform and style > viewport clip > viewport transform + the symbol's style > copy *)
 Definition expand_use_symbol (id : N) (orig_ts new_ts : ts) (st sym_st : gstyle) (clip : option N) (kids : list tnode)
@@ -169,21 +169,21 @@ Definition expand_use_symbol (id : N) (orig_ts new_ts : ts) (st sym_st : gstyle)
      | Some c => [TGroup 0%N ts_identity (clip_only c) [TGroup 0%N new_ts sym_st kids]]
      | None => [TGroup 0%N new_ts sym_st kids]
      end].
-(* leaves with accumulated opacity, transform, and the clips above them, each with the transform accumulated AT the clip
-   group (= the coordinate system the clip rectangle lives in) *)
-Fixpoint cleaves (o : Q) (t : ts) (cl : list (N * ts)) (n : tnode) : list (N * Q * ts * list (N * ts)) :=
+(* coordinate-system-sensitive effects of a group: (0, clip path), (1, mask), (2, filter) .. *)
+Definition effects (st : gstyle) : list (N * N) :=
+  match g_clip st with Some c => [(0%N, c)] | None => [] end
+  ++ match g_mask st with Some m => [(1%N, m)] | None => [] end
+  ++ map (fun f => (2%N, f)) (g_filter st).
+(* leaves with accumulated opacity, transform, and the clips / masks / filters above them, each with the transform accumulated
+   AT its group (= the coordinate system the effect is evaluated in) *)
+Fixpoint cleaves (o : Q) (t : ts) (cl : list (N * N * ts)) (n : tnode) : list (N * Q * ts * list (N * N * ts)) :=
   match n with
   | TLeaf id _ => [(id, o, t, cl)]
   | TGroup _ u st ks =>
       let t' := ts_concat t u in
-      flat_map (cleaves (o * g_opacity st) t' (match g_clip st with Some c => cl ++ [(c, t')] | None => cl end)) ks
+      flat_map (cleaves (o * g_opacity st) t' (cl ++ map (fun e => (e, t')) (effects st))) ks
   end.
 Definition cleaves_of (l : list tnode) := flat_map (cleaves 1 ts_identity []) l.
-(* known class use-symbol-style-in-parent-space: without a viewport clip the use group's transform is reset to the identity and
-   the whole transform goes to the inner group, so a clip-path (mask, filter) of the use is applied in the parent's coordinate
-   system whenever the use has a transform *)
-Definition use_symbol_known_class (clip : option N) (st : gstyle) (orig_ts : ts) : bool :=
-  match clip with Some _ => false | None => match g_clip st with Some _ => negb (ts_is_identity orig_ts) | None => false end end.
 (* clip decision + rectangle of a use -> symbol (Gen.UseClip.get_clip_rect with use_node = the use element) *)
 Definition symbol_clip_rect (overflow : option string) (x y w h : Q) : option qrect :=
   get_clip_rect false overflow None None true true x y w h.
@@ -198,6 +198,35 @@ Definition qrect_close (tol : Q) (a b : option qrect) : bool :=
   | None, None => true
   | _, _ => false
   end.
+
+(* ---- property inheritance through use chains ------------------------------------------------------------------- *)
+(* after the svgtree step a use carries a copy of its target as its only child; an inheritable property (fill, ...) set on an
+   element (`own`) overrides what it inherits, and a copy inherits from the USE element (find_attribute walks the parents in the
+   new tree), never from the place the target was defined in *)
+Inductive ielem :=
+| ILeaf (id : N) (own : option N)
+| IGroup (own : option N) (kids : list ielem)
+| IUse (own : option N) (copy : ielem).
+Definition pick (own : option N) (inh : N) : N := match own with Some v => v | None => inh end.
+Fixpoint resolved (inh : N) (e : ielem) : list (N * N) :=
+  match e with
+  | ILeaf id own => [(id, pick own inh)]
+  | IGroup own kids => flat_map (resolved (pick own inh)) kids
+  | IUse own copy => resolved (pick own inh) copy
+  end.
+(* the expansion of every use (at any depth) by a group around the copy *)
+Fixpoint expand_uses (e : ielem) : ielem :=
+  match e with
+  | ILeaf id own => ILeaf id own
+  | IGroup own kids => IGroup own (map expand_uses kids)
+  | IUse own copy => IGroup own [expand_uses copy]
+  end.
+(* a chain use -> use -> .. -> target of any length: the i-th use sets `owns[i]` *)
+Fixpoint use_chain (owns : list (option N)) (target : ielem) : ielem :=
+  match owns with [] => target | o :: r => IUse o (use_chain r target) end.
+(* the innermost value that is set along the chain, else the inherited one *)
+Fixpoint chain_value (owns : list (option N)) (inh : N) : N :=
+  match owns with [] => inh | o :: r => chain_value r (pick o inh) end.
 
 (* ---- switch ---------------------------------------------------------------------------------------- *)
 Record cond := { c_element : bool;                 (* false = text node *)
